@@ -1,4 +1,441 @@
+/-
+C18 — Shard placement and shard leadership stay valid under any node churn.
+
+Property theorems over the models `LinVerif.Assign` (coordinator/master/shard_assign.go,
+replica_leader_elector.go, models.ShardAssignment.AddReplica) and `LinVerif.Master`
+(coordinator/master/state_manager.go event handlers, models.StorageState).
+Helper lemmas: `Lemmas/C18Assign.lean`, `Lemmas/C18Master.lean`.
+-/
 import LinVerif.Model.Master
+import LinVerif.Generated.C18
+import LinVerif.Lemmas.C18Assign
+import LinVerif.Lemmas.C18Master
+
 namespace LinVerif.Props.C18
-theorem trivial_test : (1 : Nat) + 1 = 2 := rfl
+open LinVerif LinVerif.Assign LinVerif.Master LinVerif.Lemmas.C18
+
+/-! ## 1. Ties to the facts regenerated from /repo's source -/
+
+/-- Go's `replicaIndex` (with `%` = `Int.tmod`) on the non-negative arguments the loop passes is the
+model's `replicaIndex`. -/
+theorem tie_replicaIndex (first shift j n : Nat) (hn : 2 ≤ n) :
+    Generated.C18.replicaIndex first shift j n = (Assign.replicaIndex first shift j n : Int) := by
+  unfold Generated.C18.replicaIndex Assign.replicaIndex
+  have h1 : ((n : Int) - 1) = ((n - 1 : Nat) : Int) := by omega
+  simp only [h1]
+  rw [← Int.natCast_add, ← Int.ofNat_tmod, ← Int.natCast_one, ← Int.natCast_add, ← Int.natCast_add,
+    ← Int.ofNat_tmod]
+
+/-- `firstReplicaIndex := (int(currentShardID) + startIndex) % numOfNode` -/
+theorem tie_firstReplicaIndex (cur start n : Nat) :
+    Generated.C18.firstReplicaIndex cur start n = (((cur + start) % n : Nat) : Int) := by
+  unfold Generated.C18.firstReplicaIndex
+  rw [← Int.natCast_add, ← Int.ofNat_tmod]
+
+/-- the first index of the model's replica list is Go's `firstReplicaIndex`, the others are Go's
+`replicaIndex(firstReplicaIndex, nextReplicaShift, j, numOfNode)` for `j = 0 .. rf-2` -/
+theorem tie_replicaIdxs (n rf start shift cur : Nat) (hn : 2 ≤ n) :
+    (replicaIdxs n rf start shift cur).map (fun (i : Nat) => (i : Int)) =
+      Generated.C18.firstReplicaIndex cur start n ::
+        (List.range (rf - 1)).map (fun (j : Nat) =>
+          Generated.C18.replicaIndex (Generated.C18.firstReplicaIndex cur start n) shift j n) := by
+  simp only [replicaIdxs, List.map_cons, List.map_map, tie_firstReplicaIndex]
+  congr 1
+  apply List.map_congr_left
+  intro j _
+  simp only [Function.comp]
+  rw [tie_replicaIndex _ _ _ _ hn]
+
+/-- `if currentShardID > 0 && int(currentShardID)%numOfNode == 0 { nextReplicaShift++ }` -/
+theorem tie_bump (n shift cur : Nat) :
+    Assign.bump n shift cur = if Generated.C18.bumpCond cur n then shift + 1 else shift := by
+  unfold Assign.bump Generated.C18.bumpCond
+  have h : (Int.tmod (cur : Int) (n : Int) = 0) ↔ cur % n = 0 := by
+    rw [← Int.ofNat_tmod]; omega
+  have h2 : ((cur : Int) > 0) ↔ cur > 0 := by omega
+  simp only [h, h2, decide_eq_true_eq]
+
+/-- `models.ShardStateType` iota block and `models.NoLeader` -/
+theorem tie_states :
+    Generated.C18.unknownShard = (stUnknown : Int) ∧ Generated.C18.newShard = (stNew : Int) ∧
+    Generated.C18.onlineShard = (stOnline : Int) ∧ Generated.C18.offlineShard = (stOffline : Int) ∧
+    Generated.C18.noLeader = -1 ∧
+    (elected [] [] ShardState.zero).leader = Generated.C18.noLeader ∧
+    ((elected [] [] ShardState.zero).state : Int) = Generated.C18.offlineShard ∧
+    ((elected [1] [1] ShardState.zero).state : Int) = Generated.C18.onlineShard := by
+  decide
+
+/-- call order inside the assignment loop body: `AddReplica(first)`, then per `j`:
+`replicaIndex`, `AddReplica`; the elector appends live replicas in assignment order -/
+theorem tie_call_order :
+    Generated.C18.assignLoopCalls = ["len", "rand.Intn", "rand.Intn", "models.ShardID", "int", "int",
+      "shardAssignment.AddReplica", "replicaIndex", "shardAssignment.AddReplica"] ∧
+    Generated.C18.electLeaderCalls = ["append", "len"] := by
+  decide
+
+/-! ## 2. Every shard gets exactly `rf` distinct nodes of the live list -/
+
+/-- what the property demands of one shard's replica list -/
+def ValidReplicas (nodes : List Nat) (rf : Nat) (rs : List Nat) : Prop :=
+  rs.length = rf ∧ rs.Nodup ∧ ∀ r ∈ rs, r ∈ nodes
+
+/-- `assignReplicasToStorageNodes`, any cluster, any replica factor within bounds, any (random)
+start and shift, any starting shard id, any number of new shards, on top of any assignment that
+does not yet contain the new shard ids: each new shard gets exactly `rf` distinct nodes taken from
+`nodes`; more precisely the list `shardNodes` for the loop's shift at that shard. -/
+theorem assign_valid (nodes : List Nat) (hnd : nodes.Nodup) (rf : Nat) (hrf : 1 ≤ rf)
+    (hle : rf ≤ nodes.length) (start shift cur0 k : Nat) (a : Assignment)
+    (hfresh : ∀ s, cur0 ≤ s → s < cur0 + k → Map.lookup a s = none) :
+    ∀ s, cur0 ≤ s → s < cur0 + k →
+      ∃ rs, Map.lookup (assignLoop nodes rf start k shift cur0 a) s = some rs ∧
+        rs = shardNodes nodes rf start (shiftAt nodes.length shift cur0 (s - cur0)) s ∧
+        ValidReplicas nodes rf rs := by
+  intro s h1 h2
+  have h := assignLoop_lookup_in nodes hnd rf start hrf hle k shift cur0 a hfresh (s - cur0) (by omega)
+  rw [show cur0 + (s - cur0) = s by omega] at h
+  exact ⟨_, h, rfl, shardNodes_length hrf, shardNodes_nodup hnd hrf hle,
+    shardNodes_subset (by omega)⟩
+
+/-- `ShardAssignment` succeeds exactly on `numShards > 0`, `0 < rf ≤ |nodes|`; the result holds
+exactly the shards `[startShard, startShard + numShards)`, each with `rf` distinct live nodes. -/
+theorem shardAssignment_valid (nodes : List Nat) (hnd : nodes.Nodup) (numShards rf : Int)
+    (start shift startShard : Nat) (h1 : 0 < numShards) (h2 : 0 < rf) (h3 : rf ≤ nodes.length) :
+    ∃ res, shardAssignment nodes numShards rf start shift startShard = .ok res ∧
+      (∀ s : Nat, startShard ≤ s → (s : Int) < startShard + numShards →
+        ∃ rs, Map.lookup res s = some rs ∧ ValidReplicas nodes rf.toNat rs) ∧
+      (∀ s : Nat, (s < startShard ∨ (startShard : Int) + numShards ≤ s) → Map.lookup res s = none) := by
+  refine ⟨assignLoop nodes rf.toNat start numShards.toNat shift startShard [], ?_, ?_, ?_⟩
+  · unfold shardAssignment
+    rw [if_neg (by omega), if_neg (by omega), if_neg (by omega)]
+  · intro s hs1 hs2
+    obtain ⟨rs, hl, _, hv⟩ := assign_valid nodes hnd rf.toNat (by omega) (by omega) start shift
+      startShard numShards.toNat [] (fun _ _ _ => rfl) s hs1 (by omega)
+    exact ⟨rs, hl, hv⟩
+  · intro s hs
+    rw [assignLoop_lookup_out nodes rf.toNat start numShards.toNat shift startShard [] s (by omega)]
+    rfl
+
+/-- the three error branches of `ShardAssignment`, in the order the code tests them -/
+theorem shardAssignment_errors (nodes : List Nat) (numShards rf : Int) (start shift startShard : Nat) :
+    (numShards ≤ 0 → shardAssignment nodes numShards rf start shift startShard = .error .numShards) ∧
+    (0 < numShards → rf ≤ 0 →
+      shardAssignment nodes numShards rf start shift startShard = .error .replicaFactor) ∧
+    (0 < numShards → 0 < rf → rf > nodes.length →
+      shardAssignment nodes numShards rf start shift startShard = .error .tooFewNodes) := by
+  unfold shardAssignment
+  refine ⟨fun h => by rw [if_pos h], fun h1 h2 => by rw [if_neg (by omega), if_pos h2],
+    fun h1 h2 h3 => by rw [if_neg (by omega), if_neg (by omega), if_pos h3]⟩
+
+/-- `ModifyShardAssignment` (grow): with existing shard ids `0 .. len-1` and `startShard = len`
+(what `stateManager.modifyShardAssignment` passes) every added shard gets `rf` distinct live nodes. -/
+theorem modifyShardAssignment_valid (nodes : List Nat) (hnd : nodes.Nodup) (cfgShards rf : Int)
+    (existing : Assignment) (start shift startShard : Nat)
+    (hkeys : ∀ s, startShard ≤ s → Map.lookup existing s = none)
+    (h1 : (existing.length : Int) < cfgShards) (h2 : 0 < rf) (h3 : rf ≤ nodes.length) :
+    ∃ res, modifyShardAssignment nodes cfgShards rf existing start shift startShard = .ok res ∧
+      (∀ s : Nat, startShard ≤ s → (s : Int) < startShard + (cfgShards - existing.length) →
+        ∃ rs, Map.lookup res s = some rs ∧ ValidReplicas nodes rf.toNat rs) ∧
+      (∀ s : Nat, (s < startShard ∨ (startShard : Int) + (cfgShards - existing.length) ≤ s) →
+        Map.lookup res s = Map.lookup existing s) := by
+  refine ⟨assignLoop nodes rf.toNat start (cfgShards - existing.length).toNat shift startShard existing,
+    ?_, ?_, ?_⟩
+  · unfold modifyShardAssignment
+    simp only []
+    rw [if_neg (by omega), if_neg (by omega), if_neg (by omega)]
+  · intro s hs1 hs2
+    obtain ⟨rs, hl, _, hv⟩ := assign_valid nodes hnd rf.toNat (by omega) (by omega) start shift
+      startShard (cfgShards - existing.length).toNat existing (fun s hs _ => hkeys s hs) s hs1 (by omega)
+    exact ⟨rs, hl, hv⟩
+  · intro s hs
+    exact assignLoop_lookup_out nodes rf.toNat start _ shift startShard existing s (by omega)
+
+/-- the error branches of `ModifyShardAssignment` -/
+theorem modifyShardAssignment_errors (nodes : List Nat) (cfgShards rf : Int) (existing : Assignment)
+    (start shift startShard : Nat) :
+    (cfgShards - existing.length ≤ 0 →
+      modifyShardAssignment nodes cfgShards rf existing start shift startShard = .error .numShards) ∧
+    (0 < cfgShards - existing.length → rf ≤ 0 →
+      modifyShardAssignment nodes cfgShards rf existing start shift startShard = .error .replicaFactor) ∧
+    (0 < cfgShards - existing.length → 0 < rf → rf > nodes.length →
+      modifyShardAssignment nodes cfgShards rf existing start shift startShard = .error .tooFewNodes) := by
+  unfold modifyShardAssignment
+  simp only []
+  refine ⟨fun h => by rw [if_pos h], fun h1 h2 => by rw [if_neg (by omega), if_pos h2],
+    fun h1 h2 h3 => by rw [if_neg (by omega), if_neg (by omega), if_pos h3]⟩
+
+/-! ## 3. First replicas are handed out round-robin -/
+
+/-- number of shards in `[cur0, cur0+k)` whose first replica in `res` is node `x` -/
+def firstCount (res : Assignment) (cur0 k x : Nat) : Nat :=
+  (List.range' cur0 k).countP (fun s => (Map.lookup res s).bind List.head? = some x)
+
+/-- Within one call, the numbers of new shards whose FIRST replica is `x` resp. `y` differ by at
+most one, for any two nodes of the list (stated as `≤ … + 1` for every ordered pair). -/
+theorem assign_roundrobin (nodes : List Nat) (hnd : nodes.Nodup) (rf : Nat) (hrf : 1 ≤ rf)
+    (hle : rf ≤ nodes.length) (start shift cur0 k : Nat) (a : Assignment)
+    (hfresh : ∀ s, cur0 ≤ s → s < cur0 + k → Map.lookup a s = none)
+    (x y : Nat) (hx : x ∈ nodes) (hy : y ∈ nodes) :
+    firstCount (assignLoop nodes rf start k shift cur0 a) cur0 k x
+      ≤ firstCount (assignLoop nodes rf start k shift cur0 a) cur0 k y + 1 := by
+  have hn : 0 < nodes.length := by omega
+  -- each count is a residue count in the window
+  have key : ∀ z, z ∈ nodes → ∃ iz, iz < nodes.length ∧
+      firstCount (assignLoop nodes rf start k shift cur0 a) cur0 k z
+        = cntRes nodes.length iz (cur0 + start) k := by
+    intro z hz
+    obtain ⟨iz, hiz, hget⟩ := List.mem_iff_getElem.mp hz
+    refine ⟨iz, hiz, ?_⟩
+    rw [← countP_shift]
+    unfold firstCount
+    apply List.countP_congr
+    intro s hs
+    rw [List.mem_range'_1] at hs
+    obtain ⟨rs, hl, hrs, _⟩ := assign_valid nodes hnd rf hrf hle start shift cur0 k a hfresh s hs.1 hs.2
+    have hmod : (s + start) % nodes.length < nodes.length := Nat.mod_lt _ hn
+    simp only [hl, hrs, Option.bind_some, shardNodes_head, Option.some.injEq, decide_eq_true_eq]
+    constructor
+    · intro h
+      have h' : nodes.getD ((s + start) % nodes.length) 0 = nodes.getD iz 0 := by
+        rw [h, getD_eq_getElem' nodes iz hiz, hget]
+      exact getD_inj_of_nodup hnd hmod hiz h'
+    · intro h
+      rw [h, getD_eq_getElem' nodes iz hiz, hget]
+  obtain ⟨ix, hix, hcx⟩ := key x hx
+  obtain ⟨iy, hiy, hcy⟩ := key y hy
+  rw [hcx, hcy]
+  exact cntRes_balanced hix hiy _ _
+
+/-! ## 4. Growing keeps existing shards where they are -/
+
+/-- the loop never touches a shard id outside `[cur0, cur0+k)` -/
+theorem grow_keeps_existing (nodes : List Nat) (rf start shift cur0 k : Nat) (a : Assignment)
+    (s : Nat) (hs : s < cur0 ∨ cur0 + k ≤ s) :
+    Map.lookup (assignLoop nodes rf start k shift cur0 a) s = Map.lookup a s :=
+  assignLoop_lookup_out nodes rf start k shift cur0 a s hs
+
+/-- `ModifyShardAssignment` with `startShard` = number of existing shards and existing ids
+`0 .. len-1`: every existing shard keeps exactly its replica list, whatever the live nodes,
+replica factor, start position and target shard count are. -/
+theorem modify_keeps_existing (nodes : List Nat) (cfgShards rf : Int) (existing : Assignment)
+    (start shift : Nat) (hids : ∀ s rs, Map.lookup existing s = some rs → s < existing.length)
+    (res : Assignment)
+    (hok : modifyShardAssignment nodes cfgShards rf existing start shift existing.length = .ok res) :
+    ∀ s rs, Map.lookup existing s = some rs → Map.lookup res s = some rs := by
+  intro s rs hl
+  unfold modifyShardAssignment at hok
+  simp only [] at hok
+  split at hok
+  · cases hok
+  · split at hok
+    · cases hok
+    · split at hok
+      · cases hok
+      · cases hok
+        rw [assignLoop_lookup_out nodes _ start _ shift existing.length existing s
+          (Or.inl (hids s rs hl))]
+        exact hl
+
+/-! ## 5. Leadership under node churn: the inductive invariant over all event sequences -/
+
+/-- `Inv` spelled out (definitions live in `Lemmas/C18Master.lean`). -/
+theorem inv_iff (st : St) : Inv st ↔
+    (Map.keys st.asg).Nodup ∧ (Map.keys st.shards).Nodup ∧
+    (∀ db ss, Map.lookup st.shards db = some ss →
+      ∃ a, Map.lookup st.asg db = some a ∧
+        (Map.keys a).Nodup ∧ (Map.keys ss).Nodup ∧
+        (∀ sid s, Map.lookup ss sid = some s → ∃ rs, Map.lookup a sid = some rs ∧
+          (s.state = stOnline ↔ ∃ r, r ∈ rs ∧ r ∈ st.live) ∧
+          (s.state = stOnline → ∃ l : Nat, s.leader = (l : Int) ∧ l ∈ st.live ∧ l ∈ rs) ∧
+          (s.state ≠ stOnline → s.state = stOffline ∧ s.leader = -1) ∧
+          s.replicas = rs) ∧
+        (∀ sid rs, Map.lookup a sid = some rs → ∃ s, Map.lookup ss sid = some s)) ∧
+    (∀ db a, Map.lookup st.asg db = some a → ∃ ss, Map.lookup st.shards db = some ss) := by
+  constructor
+  · intro h
+    refine ⟨h.asg_keys, h.shards_keys, ?_, h.has_states⟩
+    intro db ss hs
+    obtain ⟨a, ha, hok⟩ := h.db_ok db ss hs
+    refine ⟨a, ha, hok.asg_keys, hok.st_keys, ?_, hok.reported⟩
+    intro sid s hl
+    obtain ⟨rs, hr, hso⟩ := hok.shard_ok sid s hl
+    exact ⟨rs, hr, hso.online_iff, hso.leader_ok, hso.offline, hso.replicas_eq⟩
+  · rintro ⟨h1, h2, h3, h4⟩
+    refine ⟨h1, h2, ?_, h4⟩
+    intro db ss hs
+    obtain ⟨a, ha, k1, k2, k3, k4⟩ := h3 db ss hs
+    refine ⟨a, ha, k1, k2, ?_, k4⟩
+    intro sid s hl
+    obtain ⟨rs, hr, j1, j2, j3, j4⟩ := k3 sid s hl
+    exact ⟨rs, hr, j1, j2, j3, j4⟩
+
+theorem inv_initial : Inv St.init := inv_init
+
+/-- every event (node up — also for a node that is already live —, node down — also for a node
+that is not live —, assignment change, database config change, database drop) preserves `Inv` -/
+theorem inv_preserved (st : St) (ev : Event) (h : Inv st) (hw : WellFormed ev) : Inv (step st ev) :=
+  inv_step h ev hw
+
+/-- `Inv` holds after ANY sequence of events from the empty state -/
+theorem inv_reachable (es : List Event) (hw : ∀ e ∈ es, WellFormed e) : Inv (run St.init es) :=
+  inv_run es St.init inv_init hw
+
+/-- The property's second sentence, for every event sequence: every reported shard state (every
+entry of `ShardStates`) belongs to an assigned shard, is online exactly when at least one of its
+replicas is alive, an online shard's leader is an alive replica of that shard, and a shard that is
+not online is offline without leader. Stated on list membership (no shadowed entries exist). -/
+theorem churn_leadership (es : List Event) (hw : ∀ e ∈ es, WellFormed e) :
+    let st := run St.init es
+    ∀ db ss, (db, ss) ∈ st.shards → ∀ sid s, (sid, s) ∈ ss →
+      ∃ a rs, (db, a) ∈ st.asg ∧ (sid, rs) ∈ a ∧
+        (s.state = stOnline ↔ ∃ r, r ∈ rs ∧ r ∈ st.live) ∧
+        (s.state = stOnline → ∃ l : Nat, s.leader = (l : Int) ∧ l ∈ st.live ∧ l ∈ rs) ∧
+        (s.state ≠ stOnline → s.state = stOffline ∧ s.leader = -1) := by
+  intro st db ss hdb sid s hsid
+  have hinv : Inv st := inv_reachable es hw
+  have h1 := lookup_of_mem st.shards db ss hinv.shards_keys hdb
+  obtain ⟨a, ha, hok⟩ := hinv.db_ok db ss h1
+  have h2 := lookup_of_mem ss sid s hok.st_keys hsid
+  obtain ⟨rs, hr, hso⟩ := hok.shard_ok sid s h2
+  exact ⟨a, rs, mem_of_lookup _ _ _ ha, mem_of_lookup _ _ _ hr, hso.online_iff, hso.leader_ok,
+    hso.offline⟩
+
+/-- `LiveNodes` is exactly what the event history says: a node is live iff the last start-up /
+failure event naming it was a start-up (`aliveAfter`, defined in `Lemmas/C18Master.lean`) -/
+theorem live_is_event_history (es : List Event) (r : Nat) :
+    r ∈ (run St.init es).live ↔ aliveAfter r es false = true := by
+  have := mem_live_run r es St.init
+  simpa [St.init] using this
+
+/-- `churn_leadership` with "alive" read off the event sequence itself rather than off the
+state's `LiveNodes` -/
+theorem churn_leadership_events (es : List Event) (hw : ∀ e ∈ es, WellFormed e) :
+    let st := run St.init es
+    ∀ db ss, (db, ss) ∈ st.shards → ∀ sid s, (sid, s) ∈ ss →
+      ∃ a rs, (db, a) ∈ st.asg ∧ (sid, rs) ∈ a ∧
+        (s.state = stOnline ↔ ∃ r, r ∈ rs ∧ aliveAfter r es false = true) ∧
+        (s.state = stOnline → ∃ l : Nat, s.leader = (l : Int) ∧ aliveAfter l es false = true ∧ l ∈ rs) ∧
+        (s.state ≠ stOnline → s.state = stOffline ∧ s.leader = -1) := by
+  intro st db ss hdb sid s hsid
+  obtain ⟨a, rs, h1, h2, h3, h4, h5⟩ := churn_leadership es hw db ss hdb sid s hsid
+  refine ⟨a, rs, h1, h2, ?_, ?_, h5⟩
+  · rw [h3]
+    constructor
+    · rintro ⟨r, hr, hl⟩; exact ⟨r, hr, (live_is_event_history es r).mp hl⟩
+    · rintro ⟨r, hr, hl⟩; exact ⟨r, hr, (live_is_event_history es r).mpr hl⟩
+  · intro ho
+    obtain ⟨l, k1, k2, k3⟩ := h4 ho
+    exact ⟨l, k1, (live_is_event_history es l).mp k2, k3⟩
+
+/-- conversely every assigned shard of every database is reported -/
+theorem churn_every_shard_reported (es : List Event) (hw : ∀ e ∈ es, WellFormed e) :
+    let st := run St.init es
+    ∀ db a, (db, a) ∈ st.asg → ∀ sid rs, (sid, rs) ∈ a →
+      ∃ ss s, (db, ss) ∈ st.shards ∧ (sid, s) ∈ ss := by
+  intro st db a hdb sid rs hsid
+  have hinv : Inv st := inv_reachable es hw
+  have h1 := lookup_of_mem st.asg db a hinv.asg_keys hdb
+  obtain ⟨ss, hss⟩ := hinv.has_states db a h1
+  obtain ⟨a', ha', hok⟩ := hinv.db_ok db ss hss
+  rw [h1] at ha'; cases ha'
+  have h2 := lookup_of_mem a sid rs hok.asg_keys hsid
+  obtain ⟨s, hs⟩ := hok.reported sid rs h2
+  exact ⟨ss, s, mem_of_lookup _ _ _ hss, mem_of_lookup _ _ _ hs⟩
+
+/-! ## 6. Placement and leadership together -/
+
+/-- what `ShardAssignment` returns is a well-formed assignment event (distinct shard ids) -/
+theorem shardAssignment_wellFormed (nodes : List Nat) (numShards rf : Int) (start shift startShard : Nat)
+    (db : Nat) (res : Assignment)
+    (hok : shardAssignment nodes numShards rf start shift startShard = .ok res) :
+    WellFormed (.assignChanged db res) := by
+  unfold shardAssignment at hok
+  split at hok
+  · cases hok
+  · split at hok
+    · cases hok
+    · split at hok
+      · cases hok
+      · cases hok
+        exact nodup_keys_assignLoop nodes _ start _ shift startShard [] (by simp [Map.keys])
+
+/-- A database created on nodes that are all alive starts with every shard online: after any
+event history, delivering the assignment computed by `ShardAssignment` over a list of live nodes
+yields only online shards for that database, each led by an alive replica. -/
+theorem created_on_live_nodes_all_online (es : List Event) (hw : ∀ e ∈ es, WellFormed e)
+    (nodes : List Nat) (hnd : nodes.Nodup) (numShards rf : Int) (start shift : Nat) (db : Nat)
+    (res : Assignment) (hlive : ∀ r ∈ nodes, r ∈ (run St.init es).live)
+    (hok : shardAssignment nodes numShards rf start shift 0 = .ok res) :
+    let st := step (run St.init es) (.assignChanged db res)
+    ∀ ss, (db, ss) ∈ st.shards → ∀ sid s, (sid, s) ∈ ss →
+      s.state = stOnline ∧ ∃ l : Nat, s.leader = (l : Int) ∧ l ∈ st.live ∧ l ∈ s.replicas := by
+  intro st ss hdb sid s hsid
+  have hwf := shardAssignment_wellFormed nodes numShards rf start shift 0 db res hok
+  have hinv : Inv st := inv_step (inv_reachable es hw) _ hwf
+  have h1 := lookup_of_mem st.shards db ss hinv.shards_keys hdb
+  obtain ⟨a, ha, hdbok⟩ := hinv.db_ok db ss h1
+  have ha' : Map.lookup st.asg db = some res := Map.lookup_upsert_self _ _ _
+  rw [ha'] at ha; cases ha
+  have h2 := lookup_of_mem ss sid s hdbok.st_keys hsid
+  obtain ⟨rs, hr, hso⟩ := hdbok.shard_ok sid s h2
+  -- the parameters were accepted, so the validity theorem applies
+  have hpos : 0 < numShards ∧ 0 < rf ∧ rf ≤ nodes.length := by
+    unfold shardAssignment at hok
+    split at hok
+    · cases hok
+    · split at hok
+      · cases hok
+      · split at hok
+        · cases hok
+        · omega
+  obtain ⟨res', hok', hin, hout⟩ := shardAssignment_valid nodes hnd numShards rf start shift 0
+    hpos.1 hpos.2.1 hpos.2.2
+  rw [hok] at hok'; cases hok'
+  have hrange : (sid : Int) < (0 : Nat) + numShards := by
+    apply Classical.byContradiction
+    intro hn
+    have := hout sid (Or.inr (by omega))
+    rw [hr] at this; cases this
+  obtain ⟨rs', hr', hv⟩ := hin sid (Nat.zero_le _) hrange
+  rw [hr] at hr'; cases hr'
+  obtain ⟨hlen, _, hsub⟩ := hv
+  have hne : rs ≠ [] := by
+    intro e; rw [e] at hlen; simp at hlen; omega
+  obtain ⟨r0, hr0⟩ := List.exists_mem_of_ne_nil rs hne
+  have hon : s.state = stOnline := hso.online_iff.mpr ⟨r0, hr0, hlive r0 (hsub r0 hr0)⟩
+  obtain ⟨l, k1, k2, k3⟩ := hso.leader_ok hon
+  exact ⟨hon, l, k1, k2, hso.replicas_eq ▸ k3⟩
+
+/-! ## Non-vacuity -/
+
+/-- a reachable state with an online shard (led by the surviving replica) and an offline shard -/
+example :
+    (run St.init [.nodeUp 1, .nodeUp 2, .dbCfg 0, .assignChanged 0 [(0, [1, 2]), (1, [1])],
+        .nodeUp 2, .nodeDown 7, .nodeDown 1]).shards
+      = [(0, [(0, { state := stOnline, leader := 2, replicas := [1, 2] }),
+              (1, { state := stOffline, leader := -1, replicas := [1] })])] := by
+  decide
+
+/-- … and the offline shard comes back, led by the restarted node -/
+example :
+    (run St.init [.nodeUp 1, .nodeUp 2, .assignChanged 0 [(0, [1, 2]), (1, [1])],
+        .nodeDown 1, .nodeUp 1]).shards
+      = [(0, [(0, { state := stOnline, leader := 2, replicas := [1, 2] }),
+              (1, { state := stOnline, leader := 1, replicas := [1] })])] := by
+  decide
+
+/-- the doc-comment example of shard_assign.go: 5 nodes, 10 shards, replica factor 3 -/
+example :
+    shardAssignment [0, 1, 2, 3, 4] 10 3 0 0 0 = .ok
+      [(0, [0, 1, 2]), (1, [1, 2, 3]), (2, [2, 3, 4]), (3, [3, 4, 0]), (4, [4, 0, 1]),
+       (5, [0, 2, 3]), (6, [1, 3, 4]), (7, [2, 4, 0]), (8, [3, 0, 1]), (9, [4, 1, 2])] := by
+  rfl
+
+/-- the hypotheses of `assign_valid` / `assign_roundrobin` are satisfiable with a grown assignment -/
+example : ∃ (nodes : List Nat) (a : Assignment), nodes.Nodup ∧ 2 ≤ nodes.length ∧ a ≠ [] ∧
+    (∀ s, 2 ≤ s → s < 2 + 5 → Map.lookup a s = none) :=
+  ⟨[4, 9, 6], [(0, [4, 9]), (1, [9, 6])], by decide, by decide, by decide, by
+    intro s h1 h2
+    have : s = 2 ∨ s = 3 ∨ s = 4 ∨ s = 5 ∨ s = 6 := by omega
+    rcases this with rfl | rfl | rfl | rfl | rfl <;> rfl⟩
+
 end LinVerif.Props.C18
